@@ -1,21 +1,27 @@
 (** C10: the VM API of lib.rs as a state machine (hand-written from EbpfVmMbuff and the three
     wrappers, which delegate to it), an abstract specification, and the refinement between them
-    over all histories.  The model is tied to the code by the correspondence check (api histories). *)
+    over all histories.  The model is tied to the code by the regenerated effect lists (ApiFxProofs.v) and by the
+    correspondence check (api histories). *)
 From Coq Require Import ZArith List Bool Lia.
 Import ListNotations.
 Open Scope Z_scope.
 
 Section Api.
-(** programs and verifiers are abstract: [accepts v p] = verifier [v] accepts program [p];
-    [value p h] = what executing [p] with helper set [h] returns (on the fixed packet) *)
+(** programs and verifiers are abstract: [accepts v p] = verifier [v] accepts program [p] *)
 Variable prog : Type.
 Variable vf : Type.
 Variable accepts : vf -> prog -> bool.
 Variable vdefault : vf.
 Variable helpers : Type.
 Variable hadd : helpers -> Z -> helpers.
-(* what executing p with helper set h yields: a value, or the error for an unregistered helper *)
-Variable value : prog -> helpers -> Z + unit.
+(** stack-usage calculators are abstract too; [cdefault] = none installed *)
+Variable calc : Type.
+Variable cdefault : calc.
+(* what interpreting p with helper set h yields when the frame sizes come from the table [u] = (program it was computed
+   from, calculator it was computed with): a value, or the error for an unregistered helper *)
+Variable value : prog -> helpers -> option (prog * calc) -> Z + unit.
+(* what the compiled code of p yields (the compiled engines do not use the table) *)
+Variable cvalue : prog -> helpers -> Z + unit.
 (** can the compilers compile p with helper set h (every called helper registered)? *)
 Variable compilable : prog -> helpers -> bool.
 
@@ -23,7 +29,7 @@ Inductive op :=
 | OSetProgram (p : prog)
 | OSetVerifier (v : vf)
 | ORegisterHelper (id : Z)
-| OSetCalc
+| OSetCalc (c : calc)
 | OJitCompile | OCraneliftCompile
 | OExec | OExecJit | OExecCranelift.
 
@@ -36,101 +42,116 @@ Record ist := {
   i_vf : vf;
   i_helpers : helpers;
   i_jit : option (prog * helpers);          (* machine code, compiled from this program with these helpers *)
-  i_cl : option (prog * helpers) }.
+  i_cl : option (prog * helpers);
+  i_calc : calc;                            (* self.stack_verifier: the calculator in force *)
+  i_usage : option (prog * calc) }.         (* self.stack_usage: the table, computed from this program with this calculator *)
 
 Definition i_new (p : option prog) (h0 : helpers) : option ist :=
   match p with
   | Some q => if accepts vdefault q
-              then Some {| i_prog := Some q; i_vf := vdefault; i_helpers := h0; i_jit := None; i_cl := None |}
+              then Some {| i_prog := Some q; i_vf := vdefault; i_helpers := h0; i_jit := None; i_cl := None;
+                           i_calc := cdefault; i_usage := Some (q, cdefault) |}
               else None
-  | None => Some {| i_prog := None; i_vf := vdefault; i_helpers := h0; i_jit := None; i_cl := None |}
+  | None => Some {| i_prog := None; i_vf := vdefault; i_helpers := h0; i_jit := None; i_cl := None;
+                    i_calc := cdefault; i_usage := None |}
   end.
 
 Definition i_step (s : ist) (o : op) : ist * out :=
   match o with
   | OSetProgram p =>
       if accepts (i_vf s) p
-      then ({| i_prog := Some p; i_vf := i_vf s; i_helpers := i_helpers s; i_jit := None; i_cl := None |}, RUnit)
+      then ({| i_prog := Some p; i_vf := i_vf s; i_helpers := i_helpers s; i_jit := None; i_cl := None;
+               i_calc := i_calc s; i_usage := Some (p, i_calc s) |}, RUnit)
       else (s, RErrVerifier)
   | OSetVerifier v =>
       match i_prog s with
       | Some p => if accepts v p
-                  then ({| i_prog := i_prog s; i_vf := v; i_helpers := i_helpers s; i_jit := i_jit s; i_cl := i_cl s |}, RUnit)
+                  then ({| i_prog := i_prog s; i_vf := v; i_helpers := i_helpers s; i_jit := i_jit s; i_cl := i_cl s;
+                           i_calc := i_calc s; i_usage := i_usage s |}, RUnit)
                   else (s, RErrVerifier)
-      | None => ({| i_prog := None; i_vf := v; i_helpers := i_helpers s; i_jit := i_jit s; i_cl := i_cl s |}, RUnit)
+      | None => ({| i_prog := None; i_vf := v; i_helpers := i_helpers s; i_jit := i_jit s; i_cl := i_cl s;
+                    i_calc := i_calc s; i_usage := i_usage s |}, RUnit)
       end
   | ORegisterHelper id =>
-      ({| i_prog := i_prog s; i_vf := i_vf s; i_helpers := hadd (i_helpers s) id; i_jit := i_jit s; i_cl := i_cl s |}, RUnit)
-  | OSetCalc => (s, RUnit)
+      ({| i_prog := i_prog s; i_vf := i_vf s; i_helpers := hadd (i_helpers s) id; i_jit := i_jit s; i_cl := i_cl s;
+          i_calc := i_calc s; i_usage := i_usage s |}, RUnit)
+  | OSetCalc c =>
+      ({| i_prog := i_prog s; i_vf := i_vf s; i_helpers := i_helpers s; i_jit := i_jit s; i_cl := i_cl s;
+          i_calc := c; i_usage := match i_prog s with Some p => Some (p, c) | None => i_usage s end |}, RUnit)
   | OJitCompile =>
       match i_prog s with
       | Some p => if compilable p (i_helpers s)
-                  then ({| i_prog := i_prog s; i_vf := i_vf s; i_helpers := i_helpers s; i_jit := Some (p, i_helpers s); i_cl := i_cl s |}, RUnit)
+                  then ({| i_prog := i_prog s; i_vf := i_vf s; i_helpers := i_helpers s; i_jit := Some (p, i_helpers s); i_cl := i_cl s;
+                           i_calc := i_calc s; i_usage := i_usage s |}, RUnit)
                   else (s, RErrCompile)
       | None => (s, RErrNoProgram)
       end
   | OCraneliftCompile =>
       match i_prog s with
       | Some p => if compilable p (i_helpers s)
-                  then ({| i_prog := i_prog s; i_vf := i_vf s; i_helpers := i_helpers s; i_jit := i_jit s; i_cl := Some (p, i_helpers s) |}, RUnit)
+                  then ({| i_prog := i_prog s; i_vf := i_vf s; i_helpers := i_helpers s; i_jit := i_jit s; i_cl := Some (p, i_helpers s);
+                           i_calc := i_calc s; i_usage := i_usage s |}, RUnit)
                   else (s, RErrCompile)
       | None => (s, RErrNoProgram)
       end
-  | OExec => match i_prog s with Some p => (s, exec_out (value p (i_helpers s))) | None => (s, RErrNoProgram) end
-  | OExecJit => match i_jit s with Some (p, h) => (s, exec_out (value p h)) | None => (s, RErrNotCompiled) end
-  | OExecCranelift => match i_cl s with Some (p, h) => (s, exec_out (value p h)) | None => (s, RErrNotCompiled) end
+  | OExec => match i_prog s with Some p => (s, exec_out (value p (i_helpers s) (i_usage s))) | None => (s, RErrNoProgram) end
+  | OExecJit => match i_jit s with Some (p, h) => (s, exec_out (cvalue p h)) | None => (s, RErrNotCompiled) end
+  | OExecCranelift => match i_cl s with Some (p, h) => (s, exec_out (cvalue p h)) | None => (s, RErrNotCompiled) end
   end.
 
 Fixpoint i_run (s : ist) (ops : list op) : list out :=
   match ops with [] => [] | o :: r => let '(s', x) := i_step s o in x :: i_run s' r end.
 
-(** ** abstract specification: compiled artefacts are a function of the loaded program *)
+(** ** abstract specification: compiled artefacts and the frame sizes are functions of the loaded program *)
 Record ast := {
   a_loaded : option prog;                   (* the program most recently loaded successfully *)
   a_vf : vf;                                (* the verifier in force *)
   a_helpers : helpers;
   a_jit : option helpers;                   (* compiled since the last load?  with which helpers *)
-  a_cl : option helpers }.
+  a_cl : option helpers;
+  a_calc : calc }.                          (* the calculator most recently installed *)
 
 Definition a_step (s : ast) (o : op) : ast * out :=
   match o with
   | OSetProgram p =>
       if accepts (a_vf s) p
-      then ({| a_loaded := Some p; a_vf := a_vf s; a_helpers := a_helpers s; a_jit := None; a_cl := None |}, RUnit)
+      then ({| a_loaded := Some p; a_vf := a_vf s; a_helpers := a_helpers s; a_jit := None; a_cl := None; a_calc := a_calc s |}, RUnit)
       else (s, RErrVerifier)                                            (* a failed call is a no-op *)
   | OSetVerifier v =>
       match a_loaded s with
       | Some p => if accepts v p
-                  then ({| a_loaded := a_loaded s; a_vf := v; a_helpers := a_helpers s; a_jit := a_jit s; a_cl := a_cl s |}, RUnit)
+                  then ({| a_loaded := a_loaded s; a_vf := v; a_helpers := a_helpers s; a_jit := a_jit s; a_cl := a_cl s; a_calc := a_calc s |}, RUnit)
                   else (s, RErrVerifier)
-      | None => ({| a_loaded := None; a_vf := v; a_helpers := a_helpers s; a_jit := a_jit s; a_cl := a_cl s |}, RUnit)
+      | None => ({| a_loaded := None; a_vf := v; a_helpers := a_helpers s; a_jit := a_jit s; a_cl := a_cl s; a_calc := a_calc s |}, RUnit)
       end
   | ORegisterHelper id =>
-      ({| a_loaded := a_loaded s; a_vf := a_vf s; a_helpers := hadd (a_helpers s) id; a_jit := a_jit s; a_cl := a_cl s |}, RUnit)
-  | OSetCalc => (s, RUnit)
+      ({| a_loaded := a_loaded s; a_vf := a_vf s; a_helpers := hadd (a_helpers s) id; a_jit := a_jit s; a_cl := a_cl s; a_calc := a_calc s |}, RUnit)
+  | OSetCalc c =>
+      ({| a_loaded := a_loaded s; a_vf := a_vf s; a_helpers := a_helpers s; a_jit := a_jit s; a_cl := a_cl s; a_calc := c |}, RUnit)
   | OJitCompile =>
       match a_loaded s with
       | Some p => if compilable p (a_helpers s)
-                  then ({| a_loaded := a_loaded s; a_vf := a_vf s; a_helpers := a_helpers s; a_jit := Some (a_helpers s); a_cl := a_cl s |}, RUnit)
+                  then ({| a_loaded := a_loaded s; a_vf := a_vf s; a_helpers := a_helpers s; a_jit := Some (a_helpers s); a_cl := a_cl s; a_calc := a_calc s |}, RUnit)
                   else (s, RErrCompile)
       | None => (s, RErrNoProgram)
       end
   | OCraneliftCompile =>
       match a_loaded s with
       | Some p => if compilable p (a_helpers s)
-                  then ({| a_loaded := a_loaded s; a_vf := a_vf s; a_helpers := a_helpers s; a_jit := a_jit s; a_cl := Some (a_helpers s) |}, RUnit)
+                  then ({| a_loaded := a_loaded s; a_vf := a_vf s; a_helpers := a_helpers s; a_jit := a_jit s; a_cl := Some (a_helpers s); a_calc := a_calc s |}, RUnit)
                   else (s, RErrCompile)
       | None => (s, RErrNoProgram)
       end
-  | OExec => match a_loaded s with Some p => (s, exec_out (value p (a_helpers s))) | None => (s, RErrNoProgram) end
+  (* the interpreter always uses the frame sizes of the loaded program under the calculator in force *)
+  | OExec => match a_loaded s with Some p => (s, exec_out (value p (a_helpers s) (Some (p, a_calc s)))) | None => (s, RErrNoProgram) end
   | OExecJit =>
       match a_loaded s, a_jit s with
-      | Some p, Some h => (s, exec_out (value p h))       (* always the loaded program *)
+      | Some p, Some h => (s, exec_out (cvalue p h))       (* always the loaded program *)
       | _, _ => (s, RErrNotCompiled)
       end
   | OExecCranelift =>
       match a_loaded s, a_cl s with
-      | Some p, Some h => (s, exec_out (value p h))
+      | Some p, Some h => (s, exec_out (cvalue p h))
       | _, _ => (s, RErrNotCompiled)
       end
   end.
@@ -146,21 +167,24 @@ Definition rel (i : ist) (a : ast) : Prop :=
    | None => a_jit a = None end) /\
   (match i_cl i with
    | Some (p, h) => a_loaded a = Some p /\ a_cl a = Some h
-   | None => a_cl a = None end).
+   | None => a_cl a = None end) /\
+  i_calc i = a_calc a /\
+  (* the table is that of the loaded program under the calculator in force *)
+  (match a_loaded a with Some p => i_usage i = Some (p, a_calc a) | None => True end).
 
 Lemma step_refines i a o : rel i a ->
   snd (i_step i o) = snd (a_step a o) /\ rel (fst (i_step i o)) (fst (a_step a o)).
 Proof.
-  intros (Hp & Hv & Hh & Hj & Hc).
-  destruct i as [ip iv ih ij ic], a as [al av ah aj ac]; cbn in *; subst.
+  intros (Hp & Hv & Hh & Hj & Hc & Hk & Hu).
+  destruct i as [ip iv ih ij ic ik iu], a as [al av ah aj ac ak]; cbn in *; subst.
   destruct o; cbn.
   - destruct (accepts av p); cbn; repeat split; auto.
   - destruct al as [p|]; [destruct (accepts v p)|]; cbn; repeat split; auto.
   - repeat split; auto.
-  - repeat split; auto.
-  - destruct al as [p|]; [destruct (compilable p ah)|]; cbn; repeat split; auto.
-  - destruct al as [p|]; [destruct (compilable p ah)|]; cbn; repeat split; auto.
   - destruct al as [p|]; cbn; repeat split; auto.
+  - destruct al as [p|]; [destruct (compilable p ah)|]; cbn; repeat split; auto.
+  - destruct al as [p|]; [destruct (compilable p ah)|]; cbn; repeat split; auto.
+  - destruct al as [p|]; cbn; [rewrite Hu|]; repeat split; auto.
   - destruct ij as [[p h]|]; cbn.
     + destruct Hj as [-> ->]. cbn. repeat split; auto.
     + rewrite Hj. destruct al; cbn; repeat split; auto.
@@ -179,7 +203,8 @@ Qed.
 Definition abs (i : ist) : ast :=
   {| a_loaded := i_prog i; a_vf := i_vf i; a_helpers := i_helpers i;
      a_jit := match i_jit i with Some (_, h) => Some h | None => None end;
-     a_cl := match i_cl i with Some (_, h) => Some h | None => None end |}.
+     a_cl := match i_cl i with Some (_, h) => Some h | None => None end;
+     a_calc := i_calc i |}.
 
 (** every VM obtained from [new] refines the specification for every history *)
 Theorem new_refines p h0 i ops : i_new p h0 = Some i -> i_run i ops = a_run (abs i) ops.
@@ -197,9 +222,9 @@ Proof.
   - destruct (a_loaded a) as [p|]; [destruct (accepts v p)|]; cbn; try discriminate; reflexivity.
   - destruct (a_loaded a) as [p|]; [destruct (compilable p (a_helpers a))|]; cbn; discriminate.
   - destruct (a_loaded a) as [p|]; [destruct (compilable p (a_helpers a))|]; cbn; discriminate.
-  - destruct (a_loaded a); cbn; try destruct (value _ _); cbn; discriminate.
-  - destruct (a_loaded a); destruct (a_jit a); cbn; try destruct (value _ _); cbn; discriminate.
-  - destruct (a_loaded a); destruct (a_cl a); cbn; try destruct (value _ _); cbn; discriminate.
+  - destruct (a_loaded a); cbn; try destruct (value _ _ _); cbn; discriminate.
+  - destruct (a_loaded a); destruct (a_jit a); cbn; try destruct (cvalue _ _); cbn; discriminate.
+  - destruct (a_loaded a); destruct (a_cl a); cbn; try destruct (cvalue _ _); cbn; discriminate.
 Qed.
 
 (** the loaded program was accepted by the verifier in force *)
@@ -216,7 +241,7 @@ Proof.
   - destruct (a_loaded a) eqn:L; destruct (a_cl a); cbn; rewrite ?L; auto.
 Qed.
 
-(** executions do not change the state: results depend only on program, helpers (and buffers) *)
+(** executions do not change the state: results depend only on program, helpers, calculator (and buffers) *)
 Lemma exec_pure a o : o = OExec \/ o = OExecJit \/ o = OExecCranelift -> fst (a_step a o) = a.
 Proof.
   intros [->|[->| ->]]; cbn.
@@ -224,4 +249,8 @@ Proof.
   - destruct (a_loaded a); destruct (a_jit a); reflexivity.
   - destruct (a_loaded a); destruct (a_cl a); reflexivity.
 Qed.
+(** the interpreter's answer depends on the loaded program, the helpers and the calculator in force only *)
+Lemma exec_uses_loaded_frames a p : a_loaded a = Some p ->
+  snd (a_step a OExec) = exec_out (value p (a_helpers a) (Some (p, a_calc a))).
+Proof. intros H. cbn. rewrite H. reflexivity. Qed.
 End Api.
